@@ -12,6 +12,7 @@ mod mm;
 mod out;
 mod pure;
 mod rng;
+mod sched;
 mod table;
 mod xxh;
 
@@ -60,6 +61,7 @@ fn main() {
         "catalog" => catalog::run(&args),
         "compat" => compat::run(&args),
         "corrupt" => corrupt::run(&args),
+        "sched" => sched::run(&args),
         other => {
             eprintln!("unknown command {other}");
             std::process::exit(2);
